@@ -4,7 +4,7 @@
 //! through the crate's `BC64` trait, each shadowed by a `[bool; 64]`
 //! membership model that uses plain loops and the documented deck order.
 
-use crate::cardsref::{alias_spelling, card_bit, card_name, card_word, spelling, spellings, separator, ASCII_SEPARATORS, CARD_MASK, JUNK, SEPARATORS, SEPARATOR_RUN_STYLES, TAILS};
+use crate::cardsref::{junk_str, tail_str, JUNK_CODES, alias_spelling, card_bit, card_name, card_word, spelling, spellings, separator, ASCII_SEPARATORS, CARD_MASK, JUNK, SEPARATORS, SEPARATOR_RUN_STYLES, TAILS};
 use crate::json::J;
 use crate::rng::{fold, Rng, FNV_OFFSET};
 use crate::sim::{at, Obs, Outcome, Violation, World};
@@ -541,9 +541,9 @@ pub fn text_of(tokens: &[Tok], seps: &[u8], lead: u8, trail: u8) -> String {
         match t {
             Tok::Card { idx, spell, tail } => {
                 s.push_str(&spelling(*idx as usize % 52, *spell as usize));
-                s.push_str(TAILS[*tail as usize % TAILS.len()]);
+                s.push_str(&tail_str(*tail));
             }
-            Tok::Junk(j) => s.push_str(JUNK[*j as usize % JUNK.len()]),
+            Tok::Junk(j) => s.push_str(&junk_str(*j)),
             Tok::Alias { idx, spell, mode } => s.push_str(&alias_spelling(*idx as usize % 52, *spell as usize, *mode as usize)),
         }
     }
@@ -690,7 +690,7 @@ impl C15 {
                         match t {
                             Tok::Card { idx, spell, tail } => {
                                 let i = *idx as usize % 52;
-                                if *tail as usize % TAILS.len() != 0 {
+                                if *tail != 0 {
                                     obs.hit(p.text_tail);
                                 }
                                 if m.m[51 - i] {
@@ -1452,7 +1452,9 @@ impl<'a> Gen<'a> {
         let mut toks = Vec::with_capacity(n);
         for k in 0..n {
             if self.rng.below(10) < junk_rate {
-                toks.push(Tok::Junk(self.rng.below(JUNK.len() as u64) as u8));
+                // the hand-picked junk three times in four, otherwise a single character of any kind
+                let v = self.rng.below((JUNK.len() * 3 + JUNK_CODES - JUNK.len()) as u64) as usize;
+                toks.push(Tok::Junk(if v < JUNK.len() * 3 { v % JUNK.len() } else { v - JUNK.len() * 2 } as u8));
             } else if k > 0 && self.rng.chance(1, 8) {
                 // repeat an earlier token's card in another spelling
                 let prev = toks[self.rng.usize_below(k)].clone();
@@ -1461,7 +1463,17 @@ impl<'a> Gen<'a> {
                     j => toks.push(j),
                 }
             } else {
-                let tail = if self.rng.chance(1, 16) { 1 + self.rng.below(TAILS.len() as u64 - 1) as u8 } else { 0 };
+                // a hand-picked tail, or one or two characters of any kind (NUL, controls, punctuation, …)
+                let tail = if self.rng.chance(1, 16) {
+                    let v = self.rng.below(144 + 255);
+                    if v < 144 {
+                        1 + (v % (TAILS.len() as u64 - 1)) as u8
+                    } else {
+                        1 + (v - 144) as u8
+                    }
+                } else {
+                    0
+                };
                 let (idx, spell) = (self.rng.below(52) as u8, self.rng.below(12) as u8);
                 toks.push(Tok::Card { idx, spell, tail });
                 if junk_rate > 0 && self.rng.chance(1, 8) {
@@ -1804,7 +1816,7 @@ impl World for C15 {
             }
         }
         // card tokens with every tail, short and long (C12: a token is a card iff it starts with rank+suit)
-        for t in 1..TAILS.len() as u8 {
+        for t in 1..=255u8 {
             let toks: Vec<Tok> = [0u8, 17, 30, 51].iter().map(|i| Tok::Card { idx: *i, spell: (*i % 12), tail: t }).collect();
             out.push((format!("card tokens with tail #{}", t), vec![Op::BuildText { dst: 0, tokens: toks, seps: vec![0, 2, 3], lead: 0, trail: 0 }, Op::Count { r: 0 }, Op::Drain { r: 0 }]));
         }
@@ -1818,8 +1830,8 @@ impl World for C15 {
             }
         }
         out.push(("whole deck with junk between".into(), vec![Op::BuildText { dst: 0, tokens: junky, seps: vec![], lead: 0, trail: 0 }, Op::Count { r: 0 }, Op::Drain { r: 0 }]));
-        for j in 0..JUNK.len() as u8 {
-            out.push((format!("junk token {} alone and between cards", JUNK[j as usize]), vec![Op::BuildText { dst: 0, tokens: vec![Tok::Junk(j)], seps: vec![], lead: 0, trail: 0 }, Op::Valid { r: 0 }, Op::BuildText { dst: 1, tokens: vec![Tok::Card { idx: 3, spell: 0, tail: 0 }, Tok::Junk(j), Tok::Card { idx: 40, spell: 3, tail: 0 }], seps: vec![0, 2], lead: 0, trail: 0 }, Op::Count { r: 1 }, Op::Drain { r: 1 }]));
+        for j in 0..JUNK_CODES as u8 {
+            out.push((format!("junk token {:?} alone and between cards", junk_str(j)), vec![Op::BuildText { dst: 0, tokens: vec![Tok::Junk(j)], seps: vec![], lead: 0, trail: 0 }, Op::Valid { r: 0 }, Op::BuildText { dst: 1, tokens: vec![Tok::Card { idx: 3, spell: 0, tail: 0 }, Tok::Junk(j), Tok::Card { idx: 40, spell: 3, tail: 0 }], seps: vec![0, 2], lead: 0, trail: 0 }, Op::Count { r: 1 }, Op::Drain { r: 1 }]));
         }
         out.push(("empty text".into(), vec![Op::BuildText { dst: 0, tokens: vec![], seps: vec![], lead: 1, trail: 0 }, Op::Valid { r: 0 }, Op::Peel { r: 0 }]));
         // every pair of cards: peel order, subset queries, two-slot hands in both orders
